@@ -6,6 +6,7 @@ import Acra.Gen.Src.H264
 import Acra.Lemmas.SrcTieSearch
 import Acra.Lemmas.KMP
 import Acra.Lemmas.Search
+set_option linter.unusedSimpArgs false
 namespace Acra.Props.C17
 open Acra Acra.Py Acra.Lemmas.SrcTieSwap Acra.Lemmas.SrcTieSearch
 
@@ -166,8 +167,18 @@ theorem src_KMP_search (t p : Bytes) :
         by_cases hJp : J = p.length
         · have h1 : (J : Int) = Py.len p := by unfold Py.len; omega
           have hj1 : (J : Int) - 1 = ((J - 1 : Nat) : Int) := by have := hJ1 hJp; omega
-          rw [if_pos h1, if_pos hJp, hj1, getItem_nat]
-          cases tbl[J - 1]? <;> rfl
+          have hget : getItem (tbl.map Int.ofNat) ((J : Int) - 1) = liftN tbl[J - 1]? := by rw [hj1, getItem_nat]
+          rw [if_pos h1, if_pos hJp, hget]
+          cases tbl[J - 1]? with
+          | none => rfl
+          | some j' =>
+            -- the offset `i - (j - 1)`, however it is written (`i - j + 1` …): linear arithmetic
+            first
+              | rfl
+              | (simp only [liftN_some, ok_bind, Except.map]
+                 refine congrArg Except.ok (Prod.ext rfl (congrArg (fun x => ret ++ [x]) ?_))
+                 show _ = _
+                 omega)
         · have h1 : ¬ (J : Int) = Py.len p := by unfold Py.len; omega
           rw [if_neg h1, if_neg hJp]; rfl
 
@@ -219,15 +230,24 @@ theorem src_bmh_samdec (text pat : Bytes) :
       rw [this]
     have hfuel1 : ((text.length : Int) + 1).toNat = text.length + 1 := by omega
     have hfuel2 : ((pat.length : Int) - 1 + 2).toNat = pat.length + 1 := by omega
-    rw [h256, hrange, hfuel1, hfuel2,
+    -- the initial table, built by 256 appends or as `[m] * 256`
+    first
+      | rw [h256]
+      | rw [replicate_nat 256 256 rfl pat.length]
+    rw [hrange, hfuel1, hfuel2,
       skipLoop_tie pat _ ?hG (List.range (pat.length - 1)) (List.replicate 256 pat.length) List.length_replicate
         (fun k hk => List.mem_range.mp hk), ← bmhSkip_eq, ok_bind, bind_ok_fst]
     case hG =>
       intro sk k hs hk
       obtain ⟨c, hc⟩ : ∃ c, pat[k]? = some c := ⟨pat[k]'(by omega), List.getElem?_eq_getElem _⟩
-      have e : (pat.length : Int) - (k : Int) - 1 = ((pat.length - k - 1 : Nat) : Int) := by omega
-      simp only [getByte_nat, hc, liftB_some, ok_bind, e]
-      rw [setItem_nat _ _ _ (by rw [hs]; exact c.toNat_lt), ok_bind]
+      -- the shift `m - k - 1`, however it is written
+      have e1 : (pat.length : Int) - (k : Int) - 1 = ((pat.length - k - 1 : Nat) : Int) := by omega
+      have e2 : (pat.length : Int) - 1 - (k : Int) = ((pat.length - k - 1 : Nat) : Int) := by omega
+      simp only [getByte_nat, hc, liftB_some, ok_bind, e1, e2]
+      -- the store: raising (`Py.setItem`, table of unknown length) or total (`Py.setAt`, length 256 known)
+      first
+        | rw [setItem_nat _ _ _ (by rw [hs]; exact c.toNat_lt), ok_bind]
+        | rw [setAt_nat]
       unfold skipStep; rw [hc]
     refine outer_tie text pat (Model.Search.bmhSkip pat) _ _ (fun offs k => rfl) (fun offs k => ?_)
       (text.length + 1) ((pat.length : Int) - 1) []
@@ -242,15 +262,15 @@ theorem src_bmh_samdec (text pat : Bytes) :
       cases Model.Search.pyIdx text k with
       | none => rfl
       | some c =>
-        simp only [liftB_some, ok_bind, getItem_nat]
-        cases (Model.Search.bmhSkip pat)[c.toNat]? with
-        | none => rfl
-        | some s =>
-          simp only [liftN_some, ok_bind, beq_iff_eq]
-          by_cases hj : j1 = 0
-          · subst hj; rfl
-          · have : ¬ ((j1 : Int) - 1 = -1) := by omega
-            rw [if_neg this, if_neg hj]
+        -- the table has 256 cells, so `skip[text[k]]` (raising `getItem`, or total `intAt` when the length is known
+        -- to the translator) is the model's cell
+        obtain ⟨s, hs⟩ : ∃ s, (Model.Search.bmhSkip pat)[c.toNat]? = some s :=
+          ⟨_, List.getElem?_eq_getElem (by rw [bmhSkip_length]; exact c.toNat_lt)⟩
+        simp only [liftB_some, ok_bind, getItem_nat, hs, liftN_some, intAt_nat _ _ _ hs, beq_iff_eq]
+        by_cases hj : j1 = 0
+        · subst hj; rfl
+        · have : ¬ ((j1 : Int) - 1 = -1) := by omega
+          rw [if_neg this, if_neg hj]
 
 /-- `string_matching_boyer_moore_horspool` of MPEG/H264.py (the second copy; its `if PY3:` tests are
     resolved to the Python-3 branch by the translator, see the note in the generated file) as written today = the model `bmh`, for EVERY text and
@@ -276,15 +296,24 @@ theorem src_bmh_h264 (text pat : Bytes) :
       rw [this]
     have hfuel1 : ((text.length : Int) + 1).toNat = text.length + 1 := by omega
     have hfuel2 : ((pat.length : Int) - 1 + 2).toNat = pat.length + 1 := by omega
-    rw [h256, hrange, hfuel1, hfuel2,
+    -- the initial table, built by 256 appends or as `[m] * 256`
+    first
+      | rw [h256]
+      | rw [replicate_nat 256 256 rfl pat.length]
+    rw [hrange, hfuel1, hfuel2,
       skipLoop_tie pat _ ?hG (List.range (pat.length - 1)) (List.replicate 256 pat.length) List.length_replicate
         (fun k hk => List.mem_range.mp hk), ← bmhSkip_eq, ok_bind, bind_ok_fst]
     case hG =>
       intro sk k hs hk
       obtain ⟨c, hc⟩ : ∃ c, pat[k]? = some c := ⟨pat[k]'(by omega), List.getElem?_eq_getElem _⟩
-      have e : (pat.length : Int) - (k : Int) - 1 = ((pat.length - k - 1 : Nat) : Int) := by omega
-      simp only [getByte_nat, hc, liftB_some, ok_bind, e]
-      rw [setItem_nat _ _ _ (by rw [hs]; exact c.toNat_lt), ok_bind]
+      -- the shift `m - k - 1`, however it is written
+      have e1 : (pat.length : Int) - (k : Int) - 1 = ((pat.length - k - 1 : Nat) : Int) := by omega
+      have e2 : (pat.length : Int) - 1 - (k : Int) = ((pat.length - k - 1 : Nat) : Int) := by omega
+      simp only [getByte_nat, hc, liftB_some, ok_bind, e1, e2]
+      -- the store: raising (`Py.setItem`, table of unknown length) or total (`Py.setAt`, length 256 known)
+      first
+        | rw [setItem_nat _ _ _ (by rw [hs]; exact c.toNat_lt), ok_bind]
+        | rw [setAt_nat]
       unfold skipStep; rw [hc]
     refine outer_tie text pat (Model.Search.bmhSkip pat) _ _ (fun offs k => rfl) (fun offs k => ?_)
       (text.length + 1) ((pat.length : Int) - 1) []
@@ -299,15 +328,15 @@ theorem src_bmh_h264 (text pat : Bytes) :
       cases Model.Search.pyIdx text k with
       | none => rfl
       | some c =>
-        simp only [liftB_some, ok_bind, getItem_nat]
-        cases (Model.Search.bmhSkip pat)[c.toNat]? with
-        | none => rfl
-        | some s =>
-          simp only [liftN_some, ok_bind, beq_iff_eq]
-          by_cases hj : j1 = 0
-          · subst hj; rfl
-          · have : ¬ ((j1 : Int) - 1 = -1) := by omega
-            rw [if_neg this, if_neg hj]
+        -- the table has 256 cells, so `skip[text[k]]` (raising `getItem`, or total `intAt` when the length is known
+        -- to the translator) is the model's cell
+        obtain ⟨s, hs⟩ : ∃ s, (Model.Search.bmhSkip pat)[c.toNat]? = some s :=
+          ⟨_, List.getElem?_eq_getElem (by rw [bmhSkip_length]; exact c.toNat_lt)⟩
+        simp only [liftB_some, ok_bind, getItem_nat, hs, liftN_some, intAt_nat _ _ _ hs, beq_iff_eq]
+        by_cases hj : j1 = 0
+        · subst hj; rfl
+        · have : ¬ ((j1 : Int) - 1 = -1) := by omega
+          rw [if_neg this, if_neg hj]
 
 /-- the completeness theorem of the model transfers to the SOURCE: both copies of Horspool return exactly the ascending
     list of all (possibly overlapping) occurrences, for every text and every non-empty pattern -/
